@@ -18,7 +18,7 @@ def run(tier, seed):
     # input kinds x call forms on the whole family (executed: the dispatch itself is proved above on representative types)
     from t2 import sets
 
-    b = Bounded("input-kinds-and-call-forms", "family F singles + dynamic unions x {bytes, bytearray, memoryview, BytesIO at 0, BytesIO at offset} x {T(x), T.read, T.reads, cs.read}")
+    b = Bounded("input-kinds-and-call-forms", "family F singles + dynamic unions x {bytes, bytearray, memoryview, BytesIO at 0, BytesIO at an offset (3; 16 for aligned definitions)} x {T(x), T.read, T.reads, cs.read}")
     for p in sets.singles(endians=("<",), aligns=(False, True)) + sets.dynamic_unions()[::2]:
         try:
             cs = p.load(True)
@@ -26,9 +26,10 @@ def run(tier, seed):
             continue
         T = cs.T
         data = bytes((i * 37 + 5) % 251 + 1 for i in range(40)) + bytes(6)
+        off = 16 if p.align else 3  # the statement's premise: aligned structures are parsed at aligned positions
         results = {}
         for kind, mk in (("bytes", lambda: data), ("bytearray", lambda: bytearray(data)), ("memoryview", lambda: memoryview(data)),
-                         ("stream", lambda: io.BytesIO(data)), ("stream@3", lambda: _at(io.BytesIO(b"xyz" + data), 3))):
+                         ("stream", lambda: io.BytesIO(data)), ("stream@offset", lambda: _at(io.BytesIO(bytes(off) + data), off))):
             for form, fn in (("T(x)", lambda x: T(x)), ("T.read", lambda x: T.read(x)), ("T.reads", lambda x: T.reads(x)), ("cs.read", lambda x: cs.read("T", x))):
                 if form == "T.reads" and kind.startswith("stream"):
                     continue
